@@ -7,7 +7,7 @@ CONSTANT EpochIds <- TEpochs
 CONSTANT MaxSteps = 1000000
 CONSTANT Ops <- TOps
 CONSTANT SessChecksDisabled <- TChecksDisabled
-CONSTANT RefreshUpserts = TRUE
+CONSTANT RefreshUpserts = FALSE
 CONSTANT InFlightOps = {}
 SPECIFICATION CSpec
 CONSTRAINT Progress
